@@ -95,6 +95,9 @@ func checkC05(r *mon.Run) {
 		size := sizes[i%len(sizes)]
 		oidClass := []string{"data", "spc", "short-oid", "long-oid"}[(i/len(sizes))%4]
 		ki := (i / 3) % 8
+		if i%13 == 6 {
+			ki = 100 + (i/13)%3
+		}
 		issClass := (i / 5) % keys.NumIssuerClasses
 		serial, serClass := serialClass(rng, i/7)
 		cs := getCertSet(ki, issClass, serial)
@@ -313,6 +316,7 @@ func checkC05(r *mon.Run) {
 			r.Count("mozilla_verified", 1)
 		}
 		// (5) the library's own parser and verifier
+		blobCopy := append([]byte(nil), blob...)
 		var selfErr string
 		if p := tryP(func() {
 			p7, err := pkcs7.ParsePKCS7(blob)
@@ -360,6 +364,9 @@ func checkC05(r *mon.Run) {
 			}
 		}); p != "" {
 			selfErr = "panic: " + p
+		}
+		if selfErr == "" && !bytes.Equal(blob, blobCopy) {
+			selfErr = fmt.Sprintf("parsing+verifying changed the signature bytes handed to the parser (offset %d)", firstDiff(blobCopy, blob))
 		}
 		if selfErr != "" {
 			fail("self-consistency", selfErr)
